@@ -14,7 +14,7 @@ import (
 
 type c01Case struct {
 	Env string `json:"env"` // raw | core | twig
-	Src string `json:"src"`
+	Src sb.BS  `json:"src"`
 	How string `json:"how,omitempty"`
 }
 
@@ -38,11 +38,11 @@ func init() {
 		},
 	}
 	sub := NewSub(p, "parse", func(c *Ctx, cs *c01Case) *Fail {
-		r := c.SB.Do(&sb.Req{Op: "parse", Env: cs.Env, Entry: cs.Src})
-		nt := hasOpenDelim(cs.Src) && (r.Status == "error" || cs.How != "")
-		c.Ev.Count(cs.Env+"\x00"+cs.Src, nt, "status:"+r.Status, "via:"+cs.Env)
+		r := c.SB.Do(&sb.Req{Op: "parse", Env: cs.Env, Entry: string(cs.Src)})
+		nt := hasOpenDelim(string(cs.Src)) && (r.Status == "error" || cs.How != "")
+		c.Ev.Count(cs.Env+"\x00"+string(cs.Src), nt, "status:"+r.Status, "via:"+cs.Env)
 		if nt {
-			c.Ev.Sample(map[string]string{"env": cs.Env, "src": cs.Src, "status": r.Status, "how": cs.How})
+			c.Ev.Sample(map[string]string{"env": cs.Env, "src": string(cs.Src), "status": r.Status, "how": cs.How})
 		}
 		if r.Status == "ok" || r.Status == "error" {
 			return nil
@@ -77,7 +77,7 @@ func init() {
 			}
 		}
 		for _, s := range srcs {
-			if !sub.Check(c, &c01Case{Env: env, Src: s, How: how}) {
+			if !sub.Check(c, &c01Case{Env: env, Src: sb.BS(s), How: how}) {
 				return false
 			}
 		}
@@ -172,7 +172,7 @@ func init() {
 					b.WriteByte(' ')
 				}
 			}
-			return &c01Case{Env: rapid.SampledFrom(envs).Draw(t, "env"), Src: b.String()}
+			return &c01Case{Env: rapid.SampledFrom(envs).Draw(t, "env"), Src: sb.BS(b.String())}
 		}
 		sub.Rapid(c, c.Share(c.Pick(40000, 2000000)), soup)
 
@@ -190,7 +190,7 @@ func init() {
 				b.WriteString(rapid.SampledFrom(gen.Dict).Draw(t, "f"))
 			}
 			b.WriteString(strings.Join(frags[j:], ""))
-			return &c01Case{Env: rapid.SampledFrom(envs).Draw(t, "env"), Src: b.String(), How: "splice"}
+			return &c01Case{Env: rapid.SampledFrom(envs).Draw(t, "env"), Src: sb.BS(b.String()), How: "splice"}
 		}
 		sub.Rapid(c, c.Share(c.Pick(20000, 1000000)), splice)
 	}
